@@ -2,8 +2,11 @@
   Props/C03/Table.lean — the Memoize key over the GENERATED class table (Gen/C03ClassTable.lean,
   rewritten by fv/harness/c03.py `extract` from /repo on every run).
 
-  `Interpretation.make_hash_key(cls, *args)` drops `cls`: two requests of different classes share a
-  cache entry iff their (post-metaclass) argument tuples are equal.  The table records, per class, the
+  `Interpretation.make_hash_key(cls, *args)` drops `cls`: with that key alone (the pinned
+  `Memoize.interpret`; the repaired one prefixes `get_origin(cls)`, see `memo_full_key_refines_base`) two
+  requests of different classes share a cache entry iff their (post-metaclass) argument tuples are equal.
+  This table is the second line of defence should the class prefix be dropped again, and it documents
+  which built-in classes the class-less key confuses.  The table records, per class, the
   classes of python values each constructor argument admits (AST of `__init__`), and per candidate pair
   (same arity, no position with disjoint constraints) the outcome of a live probe that tries to build
   both classes from one argument tuple.  Obligation: every candidate pair is refuted by its probe, or is
